@@ -9,7 +9,7 @@ import (
 	"golang.org/x/tools/go/ssa"
 )
 
-var trackRe = regexp.MustCompile(`\b(ncalls|lastres|lastarg)\(\s*([A-Za-z_][A-Za-z0-9_$]*)`)
+var trackRe = regexp.MustCompile(`\b(ncalls|lastres|lastarg|lastbytes)\(\s*([A-Za-z_][A-Za-z0-9_$]*)`)
 
 func modeOf(arith, floats string) Mode {
 	return Mode{BV: arith == "bv", FPOrder: floats == "order"}
@@ -257,6 +257,16 @@ func (e *Engine) VerifyLemma(lm *Lemma) (u *Unit) {
 			return u
 		}
 		hyps = append(hyps, t)
+		env.recordHyps(a.E, "")
+	}
+	// lengths of the string / slice parameters are natural instantiation points
+	for _, p := range lm.Params {
+		v := env.vars[p.Name]
+		if isString(v.typ) {
+			u.extraCands = append(u.extraCands, "(S_len "+v.t+")")
+		} else if _, ok := v.typ.Underlying().(*types.Slice); ok {
+			u.extraCands = append(u.extraCands, "(s_len "+v.t+")")
+		}
 	}
 	hyp := "true"
 	if len(hyps) > 0 {
@@ -264,12 +274,13 @@ func (e *Engine) VerifyLemma(lm *Lemma) (u *Unit) {
 	}
 	cv := u.addObl("cover.hyp", "lemma hypotheses are satisfiable (vacuity guard)", fmt.Sprintf("%s:%d", lm.File, lm.Line), "true", hyp)
 	cv.Cover = true
-	g, err := env.boolExpr(lm.Body.E)
+	g, extra, err := env.goal(lm.Body.E)
 	if err != nil {
 		u.bindingError(err.Error())
 		return u
 	}
-	u.addObl("lemma", "lemma: "+lm.Body.Src, fmt.Sprintf("%s:%d", lm.File, lm.Line), hyp, g)
+	lo := u.addObl("lemma", "lemma: "+lm.Body.Src, fmt.Sprintf("%s:%d", lm.File, lm.Line), hyp, g)
+	lo.Extra = extra
 	return u
 }
 
